@@ -105,14 +105,19 @@ def h_voice_sync(hx, sync):
     hx.cover("voice-sync")
 
 
-def h_voice_emb(hx):
+def h_voice_emb(hx, cc):
+    # colour code, PI and LCSS are a declared split (128 EMB words, all of them), so that the 16 EMB bits are concrete on each path and a
+    # decision that depends on the whole 48-bit centre (e.g. a distance to the SYNC patterns) stays a question about the 32 embedded bits
     voc = hx.ba(216, "v")
-    cc, pi, lcss = hx.int(4, "cc"), hx.int(1, "pi"), hx.int(2, "lcss")
+    pi, lcss = hx.pick("pi", [0, 1]), hx.pick("lcss", [0, 1, 2, 3])
     emb = EmbeddedSignalling(colour_code=cc, preemption_and_power_control_indicator=pi, link_control_start_stop=lcss).as_bits()
     e32 = hx.ba(32, "e")
     x = voc[:108] + emb[:8] + e32 + emb[8:] + voc[108:]
     snap = x.copy()
-    p = Burst.from_bits(x, BurstTypes.Vocoder)
+    st, p = hx.guard(Burst.from_bits, x, BurstTypes.Vocoder)
+    hx.prove(st == "ok", "voice burst around valid EMB (cc %d, PI %d, LCSS %d) and any 32 embedded bits parses (%s: %s)" % (cc, pi, lcss, type(p).__name__ if st == "exc" else "", p if st == "exc" else ""))
+    if st != "ok":
+        return
     hx.prove(p.as_bits() == snap, "voice burst around valid EMB (any colour code, PI, LCSS) and any 32 embedded bits: parse -> serialise is bit-for-bit identical")
     if p.has_emb:
         hx.prove(AND(p.colour_code == cc, p.emb.emb_parity_ok, p.embedded_signalling_bits == e32), "EMB voice burst: colour code, parity indicator and the 32 embedded bits as sent")
@@ -134,5 +139,6 @@ def cases(tier, seed):
                             bounds="payload: decode of %d symbolic bits; colour code 4 symbolic bits; sync %s" % (KINDS[BURST_KINDS[kind][0]].nbits, sync)))
     for sync in VOICE_SYNCS:
         out.append(Case("voice-" + sync, "h_voice_sync", dict(sync=sync), covers=["voice-sync"], budget_s=300, bounds="216 symbolic vocoder bits"))
-    out.append(Case("voice-emb", "h_voice_emb", {}, covers=["emb"], budget_s=600, bounds="216 vocoder bits, 32 embedded bits, colour code, PI, LCSS symbolic"))
+    for cc in range(16):
+        out.append(Case("voice-emb-cc%d" % cc, "h_voice_emb", dict(cc=cc), covers=["emb"], budget_s=600, bounds="216 vocoder bits and 32 embedded bits symbolic; colour code %d, PI and LCSS: declared split" % cc))
     return out
